@@ -46,6 +46,11 @@ Fixpoint set_none (id : nat) (k : akey) (x : snode) : snode :=
   | SN i t n f a ks => SN i t n f (if Nat.eqb i id then attrs_set_none k a else a) (map (set_none id k) ks)
   end.
 
+(* what the outer scans of find_recursive_link / find_recursive_pattern range over: the descendants of the
+   element under test (G_PRE_*_SCOPE, read from the `for` headers); an unrecognised header = the whole document *)
+Definition link_scope (d node : snode) : list snode := if G_PRE_LINK_SCOPE then sflat node else sflat d.
+Definition pat_scope (d p : snode) : list snode := if G_PRE_PAT_SCOPE then sflat p else sflat d.
+
 (* find_recursive_pattern(aid): ids are compared as strings (element_id) *)
 Definition find_recursive_pattern (k : akey) (d : snode) : option nat :=
   find_map (fun p =>
@@ -67,7 +72,7 @@ Definition find_recursive_pattern (k : akey) (d : snode) : option nat :=
                     end) (sflat ln)
               end
             else None
-        end) (sflat p)
+        end) (pat_scope d p)
     else None) (sflat d).
 
 (* find_recursive_link(eid, aid): nodes are compared by identity *)
@@ -87,7 +92,7 @@ Definition find_recursive_link (e : tagk) (k : akey) (d : snode) : option nat :=
                 | None => None
                 end) (sflat link)
             else None
-        end) (sflat node)
+        end) (link_scope d node)
     else None) (sflat d).
 
 (* `while let Some(id) = find(doc) { set none }`; the result says whether the loop left by itself *)
